@@ -255,9 +255,9 @@ int main(int argc, char** argv)
   }
   else if(mode == "relpath")
   {
-    static const char* COMP[] = {"a", "b", ".", ".."};
+    static const char* COMP[] = {"a", "b", ".", "..", "ab"};     // "ab": a name that merely starts with another name
     std::vector<std::string> paths;
-    { vf::Odometer od(4, len); while(od.next()) { std::string p; for(int i = 0; i < od.len; ++i) p += std::string(i ? "/" : "") + COMP[od.d[i]]; paths.push_back(p); } }
+    { vf::Odometer od(5, len); while(od.next()) { std::string p; for(int i = 0; i < od.len; ++i) p += std::string(i ? "/" : "") + COMP[od.d[i]]; paths.push_back(p); } }
     long long n = 0;
     for(int abs = 0; abs < 2; ++abs) for(size_t i = 0; i < paths.size(); ++i) for(size_t j = 0; j < paths.size(); ++j)
     {
